@@ -347,6 +347,21 @@ def catalogue():
     # documented-as-ignored arguments are still the caller's objects: a named kernel together with a kernel_params dict
     cat["KernelPCovR[named kernel + kernel_params]"] = xy_est(lambda s: KernelPCovR(mixing=0.5, n_components=2 if s == "small" else 3, kernel="rbf", gamma=0.1,
                                                                                       kernel_params={"length": 1.5}), ["transform", "predict", "score"])
+    # reconstruction is only available when it was asked for at THIS fit: the follow-up call reports either the reconstruction
+    # or the fact that the estimator refuses (a fresh estimator with fit_inverse_transform=False has nothing to reconstruct with)
+    def kp_inverse(obj, d, layout):
+        X = lay(d["X"], layout)
+
+        def fn():
+            T = obj.transform(X)
+            try:
+                return obj.inverse_transform(T)
+            except (AttributeError, NotFittedError):
+                return np.zeros((1, 1))
+        return fn, {"X": X}
+    from sklearn.exceptions import NotFittedError
+    e_ = xy_est(lambda s: KernelPCovR(mixing=0.5, n_components=2, kernel="linear", fit_inverse_transform=(s == "small")), ["transform", "predict"])
+    cat["KernelPCovR[inverse-transform switch]"] = e_[:3] + (e_[3] + [("inverse_transform", kp_inverse)],)
     cat["PCovR[space switch]"] = xy_est(lambda s: PCovR(mixing=0.5, n_components=2, space="feature" if s == "small" else "sample"), ["transform", "predict", "score"])
     cat["OrthogonalRegression[mode switch]"] = xy_est(lambda s: OrthogonalRegression(use_orthogonal_projector=(s == "small")), ["predict"])
     cat["KernelNormalizer[center switch]"] = (lambda size: KernelNormalizer(with_center=(size == "small")),) + cat["KernelNormalizer"][1:]
